@@ -271,4 +271,128 @@ theorem trim_range (p : Nat → Bool) (c : List Nat) :
     rw [List.drop_left]
   rw [hd2, List.reverse_drop, List.reverse_reverse, List.length_reverse]
 
+/-! ### split -/
+
+/-- reference: the pieces between separator chars (always at least one piece) -/
+def splitRef (seps : List Nat) : List Nat → List (List Nat)
+  | [] => [[]]
+  | x :: t =>
+    if seps.contains x then [] :: splitRef seps t
+    else
+      match splitRef seps t with
+      | tok :: rest => (x :: tok) :: rest
+      | [] => [[x]]
+
+theorem splitRef_ne_nil (seps : List Nat) : ∀ l, splitRef seps l ≠ []
+  | [] => by simp [splitRef]
+  | x :: t => by
+    simp only [splitRef]
+    split
+    · simp
+    · split <;> simp
+
+theorem splitRef_none {seps : List Nat} : ∀ {l : List Nat}, strpbrkL l seps = none → splitRef seps l = [l]
+  | [], _ => rfl
+  | x :: t, e => by
+    have hx : seps.contains x = false := by
+      have := strpbrk_none e x (by simp)
+      simpa using this
+    have ht : strpbrkL t seps = none := by
+      unfold strpbrkL
+      apply List.findIdx?_eq_none_iff.mpr
+      intro y hy
+      have := strpbrk_none e y (by simp [hy])
+      simpa using this
+    simp only [splitRef, hx, Bool.false_eq_true, if_false, splitRef_none ht]
+
+theorem splitRef_some {seps : List Nat} : ∀ {l : List Nat} {k : Nat}, strpbrkL l seps = some k →
+    splitRef seps l = l.take k :: splitRef seps (l.drop (k + 1))
+  | [], k, e => by simp [strpbrkL] at e
+  | x :: t, k, e => by
+    unfold strpbrkL at e
+    simp only [List.findIdx?_cons] at e
+    by_cases hx : seps.contains x = true
+    · simp only [hx, if_true, Option.some.injEq] at e
+      subst e
+      simp only [splitRef, hx, if_true, List.take_zero, Nat.zero_add, List.drop_succ_cons, List.drop_zero]
+    · have hx' : seps.contains x = false := by simpa using hx
+      simp only [hx', Bool.false_eq_true, if_false, Option.map_eq_some_iff] at e
+      obtain ⟨j, hj, rfl⟩ := e
+      have ih := splitRef_some (seps := seps) (l := t) (k := j) hj
+      simp only [splitRef, hx', Bool.false_eq_true, if_false, ih, List.take_succ_cons, List.drop_succ_cons]
+
+/-- what `split` delivers: all pieces, or the non-empty ones when `skipEmpty` -/
+def splitOut (skipEmpty : Bool) (pieces : List (List Nat)) : List (List Byte) :=
+  ((if skipEmpty then pieces.filter (fun t => !t.isEmpty) else pieces).map (·.map some))
+
+theorem subList_drop_take (c : List Byte) (p len : Nat) (h : p + len ≤ c.length) :
+    subList c (p : Int) (len : Int) = (c.drop p).take len := by
+  unfold subList substrRange
+  have h1 : ¬ ((p : Int) < 0) := by omega
+  have h2 : ¬ (p > c.length) := by omega
+  have h3 : (len : Int) ≥ 0 := by omega
+  have h4 : ¬ (p + len > c.length) := by omega
+  simp only [h1, if_false, h3, if_true, Int.toNat_natCast, h2, h4]
+  simp
+
+theorem subList_rest (c : List Byte) (p : Nat) (h : p ≤ c.length) : subList c (p : Int) (-1) = c.drop p := by
+  unfold subList substrRange
+  have h1 : ¬ ((p : Int) < 0) := by omega
+  have h2 : ¬ (p > c.length) := by omega
+  have h3 : ¬ ((-1 : Int) ≥ 0) := by omega
+  simp only [h1, if_false, h3, Int.toNat_natCast, h2]
+  rw [List.take_of_length_le (by simp only [List.length_drop]; omega)]
+
+theorem splitLoop_spec (h seps : List Nat) (skip : Bool) : ∀ (fuel p : Nat) (acc : List (List Byte)),
+    p ≤ h.length → h.length + 1 ≤ fuel + p →
+    splitLoop h (h.map some) seps skip fuel p acc = acc ++ splitOut skip (splitRef seps (h.drop p))
+  | 0, p, acc, hp, hf => by omega
+  | fuel + 1, p, acc, hp, hf => by
+    simp only [splitLoop]
+    cases hs : strpbrkL (h.drop p) seps with
+    | none =>
+      simp only [List.length_map]
+      rw [splitRef_none hs]
+      by_cases c : p < h.length
+      · simp only [c, if_true]
+        have hne : (h.drop p).isEmpty = false := by
+          cases hd : h.drop p with
+          | nil => have := congrArg List.length hd; simp at this; omega
+          | cons a r => rfl
+        rw [subList_rest _ _ (by rw [List.length_map]; omega)]
+        unfold splitOut
+        cases skip <;> simp [hne, List.map_drop]
+      · simp only [c, if_false]
+        have hd : h.drop p = [] := List.drop_of_length_le (by omega)
+        rw [hd]
+        unfold splitOut
+        cases skip <;> simp
+    | some len =>
+      simp only
+      obtain ⟨hlen, _, _⟩ := strpbrk_some hs
+      simp only [List.length_drop] at hlen
+      rw [splitRef_some hs, List.drop_drop]
+      by_cases c : len = 0
+      · subst c
+        simp only [ne_eq, not_true_eq_false, if_false]
+        rw [splitLoop_spec h seps skip fuel (p + 1) _ (by omega) (by omega)]
+        unfold splitOut
+        cases skip <;> simp [Nat.add_comm]
+      · simp only [ne_eq, c, not_false_eq_true, if_true]
+        rw [splitLoop_spec h seps skip fuel (p + len + 1) _ (by omega) (by omega)]
+        rw [subList_drop_take _ _ _ (by rw [List.length_map]; omega)]
+        have hne : ((h.drop p).take len).isEmpty = false := by
+          cases hd : (h.drop p).take len with
+          | nil => have := congrArg List.length hd; simp at this; omega
+          | cons a r => rfl
+        have e1 : p + (len + 1) = p + len + 1 := by omega
+        unfold splitOut
+        cases skip <;> simp [hne, List.map_drop, List.map_take, e1]
+
+/-- `split`: with `skipEmpty = false` all pieces between separators, otherwise the non-empty ones -/
+theorem split_loop_spec (h seps : List Nat) (skip : Bool) :
+    splitLoop h (h.map some) seps skip (h.length + 2) 0 [] = splitOut skip (splitRef seps h) := by
+  have := splitLoop_spec h seps skip (h.length + 2) 0 [] (Nat.zero_le _) (by omega)
+  simpa using this
+
 end Nstd.Str
